@@ -5,11 +5,17 @@ From Morfuse Require Import C09.Model C09.Spec.
 Import ListNotations.
 Local Open Scope N_scope.
 
-(* ---------------------------------------------------------------- variables, holders *)
+(* ---------------------------------------------------------------- values, variables *)
 Lemma vrel_mono m m' v1 v2 : incl m m' -> vrel m v1 v2 -> vrel m' v1 v2.
 Proof. intros Hi. destruct v1, v2; cbn; auto. Qed.
 
 Lemma env_rel_mono m m' e1 e2 : incl m m' -> env_rel m e1 e2 -> env_rel m' e1 e2.
+Proof.
+  intros Hi H. induction H as [|a b l1 l2 [Hf Hv] _ IH]; constructor; auto.
+  split; [exact Hf | eapply vrel_mono; eauto].
+Qed.
+
+Lemma holder_rel_mono m m' o1 o2 : incl m m' -> holder_rel m o1 o2 -> holder_rel m' o1 o2.
 Proof.
   intros Hi H. induction H as [|a b l1 l2 [Hf Hv] _ IH]; constructor; auto.
   split; [exact Hf | eapply vrel_mono; eauto].
@@ -31,6 +37,49 @@ Proof.
     + constructor; [split; auto|exact IH].
 Qed.
 
+Lemma print_of_rel m v1 v2 : vrel m v1 v2 -> print_of v1 = print_of v2.
+Proof. destruct v1, v2; cbn; intro H; try contradiction; congruence. Qed.
+
+Lemma is_nil_rel m v1 v2 : vrel m v1 v2 -> is_nil v1 = is_nil v2.
+Proof. destruct v1, v2; cbn; intro H; try contradiction; subst; reflexivity. Qed.
+
+(* ---------------------------------------------------------------- holders *)
+Lemma hold_get_rel m k o1 o2 : holder_rel m o1 o2 -> vrel m (hold_get k o1) (hold_get k o2).
+Proof.
+  intro H. induction H as [|[j1 v1] [j2 v2] l1 l2 [Hf Hv] _ IH]; cbn; [reflexivity|].
+  cbn in Hf. subst j2. destruct (Z.eqb k j1); auto.
+Qed.
+
+Lemma hold_mem_rel m k o1 o2 : holder_rel m o1 o2 -> hold_mem k o1 = hold_mem k o2.
+Proof.
+  intro H. induction H as [|[j1 v1] [j2 v2] l1 l2 [Hf Hv] _ IH]; cbn; [reflexivity|].
+  cbn in Hf. subst j2. destruct (Z.eqb k j1); auto.
+Qed.
+
+Lemma hold_put_rel m k v1 v2 o1 o2 :
+  holder_rel m o1 o2 -> vrel m v1 v2 -> holder_rel m (hold_put k v1 o1) (hold_put k v2 o2).
+Proof.
+  intros H Hv. induction H as [|[j1 w1] [j2 w2] l1 l2 [Hf Hw] Hr IH]; cbn.
+  - constructor; [split; auto|constructor].
+  - cbn in Hf. subst j2. destruct (Z.eqb k j1).
+    + constructor; [split; auto|exact Hr].
+    + constructor; [split; auto|exact IH].
+Qed.
+
+Lemma hold_remove_rel m k o1 o2 :
+  holder_rel m o1 o2 -> holder_rel m (hold_remove k o1) (hold_remove k o2).
+Proof.
+  intros H. induction H as [|[j1 w1] [j2 w2] l1 l2 [Hf Hw] Hr IH]; cbn; [constructor|].
+  cbn in Hf. subst j2. destruct (Z.eqb k j1); [exact Hr|]. constructor; [split; auto|exact IH].
+Qed.
+
+Lemma hold_set_rel m k v1 v2 o1 o2 :
+  holder_rel m o1 o2 -> vrel m v1 v2 -> holder_rel m (hold_set k v1 o1) (hold_set k v2 o2).
+Proof.
+  intros H Hv. unfold hold_set. rewrite (is_nil_rel m v1 v2 Hv).
+  destruct (is_nil v2); [now apply hold_remove_rel | now apply hold_put_rel].
+Qed.
+
 Lemma heap_get_set_same r o h : heap_get r (heap_set r o h) = o.
 Proof.
   induction h as [|[q o'] h IH]; cbn.
@@ -47,11 +96,11 @@ Proof.
     + destruct (N.eqb q p); auto.
 Qed.
 
-Lemma heap_rel_set m r1 r2 o h1 h2 :
-  pbij m -> In (r1, r2) m -> heap_rel m h1 h2 ->
-  heap_rel m (heap_set r1 o h1) (heap_set r2 o h2).
+Lemma heap_rel_set m r1 r2 o1 o2 h1 h2 :
+  pbij m -> In (r1, r2) m -> heap_rel m h1 h2 -> holder_rel m o1 o2 ->
+  heap_rel m (heap_set r1 o1 h1) (heap_set r2 o2 h2).
 Proof.
-  intros Hb Hin Hh q1 q2 Hq.
+  intros Hb Hin Hh Ho q1 q2 Hq.
   destruct (N.eq_dec q1 r1) as [->|Hne].
   - assert (q2 = r2) by (apply (Hb r1 q2 r1 r2 Hq Hin); reflexivity). subst q2.
     now rewrite !heap_get_set_same.
@@ -78,6 +127,17 @@ Proof.
   intros Hb x y [E|H].
   - inversion E; subst. lia.
   - destruct (Hb _ _ H). lia.
+Qed.
+
+Lemma heap_rel_alloc m n1 n2 o1 o2 h1 h2 :
+  heap_rel m h1 h2 -> bounded m n1 n2 -> holder_rel ((n1, n2) :: m) o1 o2 ->
+  heap_rel ((n1, n2) :: m) ((n1, o1) :: h1) ((n2, o2) :: h2).
+Proof.
+  intros Hh Hb Ho q1 q2 [E|Hq].
+  - inversion E; subst. cbn. now rewrite !N.eqb_refl.
+  - destruct (Hb _ _ Hq). cbn.
+    destruct (N.eqb_spec q1 n1); [lia|]. destruct (N.eqb_spec q2 n2); [lia|].
+    eapply holder_rel_mono; [|now apply Hh]. now apply incl_tl.
 Qed.
 
 (* ---------------------------------------------------------------- chains *)
@@ -147,47 +207,106 @@ Proof.
 Qed.
 
 (* ---------------------------------------------------------------- elements *)
-Lemma thr_rel_mono hm hm' t1 t2 : incl hm hm' -> thr_rel hm t1 t2 -> thr_rel hm' t1 t2.
-Proof. intros Hi [H1 H2]. split; auto. Qed.
+Lemma thr_rel_mono hm hm' m m' t1 t2 :
+  incl hm hm' -> incl m m' -> thr_rel hm m t1 t2 -> thr_rel hm' m' t1 t2.
+Proof. intros Hi Hj (H1 & H2 & H3). split; [auto|split; [auto|eapply env_rel_mono; eauto]]. Qed.
 
-Lemma elems_mono hm hm' l1 l2 :
-  incl hm hm' -> Forall2 (elem_rel hm) l1 l2 -> Forall2 (elem_rel hm') l1 l2.
+Lemma elems_mono hm hm' m m' l1 l2 :
+  incl hm hm' -> incl m m' -> Forall2 (elem_rel hm m) l1 l2 -> Forall2 (elem_rel hm' m') l1 l2.
 Proof.
-  intros Hi H. induction H as [|a b l1 l2 [Ht Hr] _ IH]; constructor; auto.
+  intros Hi Hj H. induction H as [|a b l1 l2 [Ht Hr] _ IH]; constructor; auto.
   split; eauto using thr_rel_mono.
 Qed.
 
-(* ---------------------------------------------------------------- running a thread *)
-Lemma st_rel_fields hm s1 s2 :
-  st_rel hm s1 s2 ->
-  mtime s1 = mtime s2 /\ dirty s1 = dirty s2 /\ scaled s1 = scaled s2 /\
-  lastclk s1 = lastclk s2 /\ startclk s1 = startclk s2 /\ clock s1 = clock s2.
-Proof. intros (_ & _ & H). tauto. Qed.
-
-Lemma data_rel_intro m e1 h1 n1 e2 h2 n2 :
-  env_rel m e1 e2 -> heap_rel m h1 h2 -> pbij m -> bounded m n1 n2 -> data_rel e1 h1 n1 e2 h2 n2.
-Proof. intros. exists m. tauto. Qed.
-
-Lemma data_rel_empty : data_rel [] [] 1 [] [] 1.
-Proof.
-  apply (data_rel_intro []).
-  - apply Forall2_nil.
-  - intros ? ? [].
-  - intros ? ? ? ? [].
-  - intros ? ? [].
-Qed.
-
+(* ---------------------------------------------------------------- state-level steps *)
 Ltac srel :=
   unfold st_rel; cbn;
-  (split; [|split; [|split; [|split; [|split; [|split; [|split; [|split; [|split]]]]]]]]); cbn; auto.
+  (split; [|split; [|split; [|split; [|split; [|split; [|split; [|split; [|split; [|split; [|split; [|split]]]]]]]]]]]);
+  cbn; auto.
 
+Lemma st_rel_set_heap hm m s1 s2 h1 h2 :
+  st_rel hm m s1 s2 -> heap_rel m h1 h2 -> st_rel hm m (set_heap s1 h1) (set_heap s2 h2).
+Proof. intros (He & Hi & Hhp & Hm & Hdi & Hsc & Hl & Hs & Hc & Hb & Hbd & Hbm & Hbdm) H. srel. Qed.
+
+Lemma st_rel_alloc hm m s1 s2 o1 o2 :
+  st_rel hm m s1 s2 -> holder_rel ((nextr s1, nextr s2) :: m) o1 o2 ->
+  st_rel hm ((nextr s1, nextr s2) :: m) (alloc s1 o1) (alloc s2 o2).
+Proof.
+  intros (He & Hi & Hhp & Hm & Hdi & Hsc & Hl & Hs & Hc & Hb & Hbd & Hbm & Hbdm) H. srel.
+  - eapply elems_mono; [apply incl_refl|apply incl_tl, incl_refl|exact He].
+  - now apply heap_rel_alloc.
+  - apply pbij_cons; auto. now apply bounded_fresh.
+  - now apply bounded_cons.
+Qed.
+
+Lemma load_elem_rel hm m s1 s2 e1 e2 x k :
+  st_rel hm m s1 s2 -> env_rel m e1 e2 -> vrel m (load_elem s1 e1 x k) (load_elem s2 e2 x k).
+Proof.
+  intros (_ & _ & Hhp & _) He. unfold load_elem.
+  pose proof (env_get_rel m x e1 e2 He) as Hg.
+  destruct (env_get x e1) as [a|r1|r1], (env_get x e2) as [b|r2|r2]; cbn in Hg; try contradiction;
+    try reflexivity; apply hold_get_rel; now apply Hhp.
+Qed.
+
+Lemma store_elem_rel hm m s1 s2 e1 e2 x k v1 v2 :
+  st_rel hm m s1 s2 -> env_rel m e1 e2 -> vrel m v1 v2 ->
+  exists m', incl m m' /\
+    st_rel hm m' (fst (store_elem s1 e1 x k v1)) (fst (store_elem s2 e2 x k v2)) /\
+    env_rel m' (snd (store_elem s1 e1 x k v1)) (snd (store_elem s2 e2 x k v2)).
+Proof.
+  intros Hst He Hv. unfold store_elem.
+  pose proof Hst as (_ & _ & Hhp & _ & _ & _ & _ & _ & _ & _ & _ & Hbm & Hbdm).
+  pose proof (env_get_rel m x e1 e2 He) as Hg.
+  destruct (env_get x e1) as [a|r1|r1], (env_get x e2) as [b|r2|r2]; cbn in Hg; try contradiction.
+  - subst b. destruct a; try (exists m; cbn; split; [apply incl_refl|split; assumption]).
+    (* nil: a new holder *)
+    exists ((nextr s1, nextr s2) :: m). cbn. split; [apply incl_tl, incl_refl|]. split.
+    + apply st_rel_alloc; auto. apply hold_set_rel; [constructor|].
+      eapply vrel_mono; [|exact Hv]. apply incl_tl, incl_refl.
+    + apply env_set_rel; [|cbn; now left]. eapply env_rel_mono; [|exact He]. apply incl_tl, incl_refl.
+  - exists m. cbn. split; [apply incl_refl|]. split; [|exact He].
+    apply st_rel_set_heap; auto. apply heap_rel_set; auto. apply hold_set_rel; auto.
+  - exists m. cbn [fst snd]. split; [apply incl_refl|].
+    rewrite (hold_mem_rel m k _ _ (Hhp _ _ Hg)).
+    destruct (hold_mem k (heap_get r2 (heap s2))); cbn [fst snd]; split; auto.
+    apply st_rel_set_heap; auto. apply heap_rel_set; auto. apply hold_put_rel; auto.
+Qed.
+
+Lemma number_from_rel m k l1 l2 :
+  Forall2 (vrel m) l1 l2 -> holder_rel m (number_from k l1) (number_from k l2).
+Proof.
+  intro H. revert k. unfold holder_rel. induction H as [|a b l1 l2 Hab _ IH]; intro k; cbn.
+  - apply Forall2_nil.
+  - apply Forall2_cons; [split; [reflexivity|exact Hab]|apply IH].
+Qed.
+
+Lemma params_from_rel m k l1 l2 :
+  Forall2 (vrel m) l1 l2 -> env_rel m (params_from k l1) (params_from k l2).
+Proof.
+  intro H. revert k. unfold env_rel. induction H as [|a b l1 l2 Hab _ IH]; intro k; cbn.
+  - apply Forall2_nil.
+  - apply Forall2_cons; [split; [reflexivity|exact Hab]|apply IH].
+Qed.
+
+Lemma cvals_rel m e1 e2 l : env_rel m e1 e2 -> Forall2 (vrel m) (map (cval_get e1) l) (map (cval_get e2) l).
+Proof.
+  intro He. induction l as [|[sc|y] l IH]; cbn; constructor; auto.
+  - reflexivity.
+  - now apply env_get_rel.
+Qed.
+
+Lemma args_rel m e1 e2 (l : list N) :
+  env_rel m e1 e2 -> Forall2 (vrel m) (map (fun y => env_get y e1) l) (map (fun y => env_get y e2) l).
+Proof. intro He. induction l; cbn; constructor; auto. now apply env_get_rel. Qed.
+
+(* ---------------------------------------------------------------- running a thread *)
 Definition code_goal (n : nat) : Prop :=
   forall p, (psize p <= n)%nat ->
-  forall s1 s2 hm h1 h2 e1 hp1 n1 e2 hp2 n2 log,
-    st_rel hm s1 s2 -> In (h1, h2) hm -> data_rel e1 hp1 n1 e2 hp2 n2 ->
-    exists hm', incl hm hm' /\
-      st_rel hm' (fst (run_code p s1 h1 e1 hp1 n1 log)) (fst (run_code p s2 h2 e2 hp2 n2 log)) /\
-      snd (run_code p s1 h1 e1 hp1 n1 log) = snd (run_code p s2 h2 e2 hp2 n2 log).
+  forall s1 s2 hm m h1 h2 e1 e2 log,
+    st_rel hm m s1 s2 -> In (h1, h2) hm -> env_rel m e1 e2 ->
+    exists hm' m', incl hm hm' /\ incl m m' /\
+      st_rel hm' m' (fst (run_code p s1 h1 e1 log)) (fst (run_code p s2 h2 e2 log)) /\
+      snd (run_code p s1 h1 e1 log) = snd (run_code p s2 h2 e2 log).
 
 Lemma psize_pos p : (1 <= psize p)%nat.
 Proof. destruct p as [|[] p]; cbn; lia. Qed.
@@ -196,112 +315,106 @@ Lemma run_code_rel_n : forall n, code_goal n.
 Proof.
   induction n as [|n IHn]; intros p Hsz.
   { pose proof (psize_pos p). lia. }
-  intros s1 s2 hm h1 h2 e1 hp1 n1 e2 hp2 n2 log Hst Hh Hd.
+  intros s1 s2 hm m h1 h2 e1 e2 log Hst Hh He.
   destruct p as [|i p'].
   { (* the thread ends *)
-    cbn. exists hm. split; [apply incl_refl|]. split; [|reflexivity].
-    destruct Hst as (He & Hi & Hm & Hdi & Hsc & Hl & Hs & Hc & Hb & Hbd).
+    cbn. exists hm, m. split; [apply incl_refl|]. split; [apply incl_refl|]. split; [|reflexivity].
+    destruct Hst as (Hel & Hi & Hhp & Hm & Hdi & Hsc & Hl & Hs & Hc & Hb & Hbd & Hbm & Hbdm).
     srel. now apply end_in_rel. }
-  destruct i as [m|d|x v|x k v|x y|x|x k|q].
-  - (* print *) cbn. apply IHn; auto. cbn in Hsz. lia.
+  destruct i as [mk|d|x v|x k v|x k y|y x k|x y|x l|x|x k|args q]; cbn in Hsz.
+  - (* print *) cbn. apply IHn; auto. lia.
   - (* wait *)
-    cbn. exists hm. split; [apply incl_refl|]. split; [|reflexivity].
-    destruct Hst as (He & Hi & Hm & Hdi & Hsc & Hl & Hs & Hc & Hb & Hbd).
+    cbn. exists hm, m. split; [apply incl_refl|]. split; [apply incl_refl|]. split; [|reflexivity].
+    destruct Hst as (Hel & Hi & Hhp & Hm & Hdi & Hsc & Hl & Hs & Hc & Hb & Hbd & Hbm & Hbdm).
     srel.
-    + apply Forall2_app; [exact He|]. constructor; [|constructor].
+    + apply Forall2_app; [exact Hel|]. constructor; [|constructor].
       split; cbn; [now rewrite Hsc|]. split; cbn; auto.
     + now rewrite Hsc, Hm, Hdi.
   - (* local.x = literal *)
-    cbn. apply IHn; auto. { cbn in Hsz. lia. }
-    destruct Hd as (m & Hev & Hhp & Hb & Hbd). apply (data_rel_intro m); auto.
-    apply env_set_rel; cbn; auto.
+    cbn. apply IHn; auto; [lia|]. apply env_set_rel; cbn; auto.
   - (* local.x[k] = literal *)
-    cbn. destruct Hd as (m & Hev & Hhp & Hb & Hbd).
-    pose proof (env_get_rel m x e1 e2 Hev) as Hg.
-    destruct (env_get x e1) as [sc1|r1], (env_get x e2) as [sc2|r2]; cbn in Hg; try contradiction.
-    + subst sc2. destruct sc1.
-      * (* nil: a new holder *)
-        apply IHn; auto. { cbn in Hsz. lia. }
-        apply (data_rel_intro ((n1, n2) :: m)).
-        -- apply env_set_rel; [|cbn; now left].
-           eapply env_rel_mono; [|exact Hev]. now apply incl_tl.
-        -- intros q1 q2 [E|Hq].
-           ++ inversion E; subst. now rewrite !heap_get_set_same.
-           ++ destruct (Hbd _ _ Hq). rewrite !heap_get_set_other by lia. now apply Hhp.
-        -- apply pbij_cons; auto. now apply bounded_fresh.
-        -- apply (bounded_cons m n1 n2 Hbd).
-      * apply IHn; auto. { cbn in Hsz. lia. } apply (data_rel_intro m); auto.
-      * apply IHn; auto. { cbn in Hsz. lia. } apply (data_rel_intro m); auto.
-      * apply IHn; auto. { cbn in Hsz. lia. } apply (data_rel_intro m); auto.
-      * apply IHn; auto. { cbn in Hsz. lia. } apply (data_rel_intro m); auto.
-    + apply IHn; auto. { cbn in Hsz. lia. }
-      apply (data_rel_intro m); auto.
-      rewrite (Hhp _ _ Hg). now apply heap_rel_set.
+    cbn. destruct (store_elem_rel hm m s1 s2 e1 e2 x k (VScal v) (VScal v) Hst He eq_refl) as (m1 & Hi1 & Hst1 & He1).
+    destruct (store_elem s1 e1 x k (VScal v)) as [s1' e1'], (store_elem s2 e2 x k (VScal v)) as [s2' e2'].
+    cbn in Hst1, He1.
+    destruct (IHn p' ltac:(lia) s1' s2' hm m1 h1 h2 e1' e2' log Hst1 Hh He1) as (hm' & m' & A & B & C & D).
+    exists hm', m'. split; [exact A|]. split; [eapply incl_tran; eauto|]. split; assumption.
+  - (* local.x[k] = local.y *)
+    cbn. destruct (store_elem_rel hm m s1 s2 e1 e2 x k _ _ Hst He (env_get_rel m y e1 e2 He)) as (m1 & Hi1 & Hst1 & He1).
+    destruct (store_elem s1 e1 x k (env_get y e1)) as [s1' e1'], (store_elem s2 e2 x k (env_get y e2)) as [s2' e2'].
+    cbn in Hst1, He1.
+    destruct (IHn p' ltac:(lia) s1' s2' hm m1 h1 h2 e1' e2' log Hst1 Hh He1) as (hm' & m' & A & B & C & D).
+    exists hm', m'. split; [exact A|]. split; [eapply incl_tran; eauto|]. split; assumption.
+  - (* local.y = local.x[k] *)
+    cbn. apply IHn; auto; [lia|]. apply env_set_rel; auto. eapply load_elem_rel; eauto.
   - (* local.x = local.y *)
-    cbn. apply IHn; auto. { cbn in Hsz. lia. }
-    destruct Hd as (m & Hev & Hhp & Hb & Hbd). apply (data_rel_intro m); auto.
-    apply env_set_rel; auto. now apply env_get_rel.
+    cbn. apply IHn; auto; [lia|]. apply env_set_rel; auto. now apply env_get_rel.
+  - (* local.x = c1::c2::.. *)
+    cbn.
+    assert (Hst1 : st_rel hm ((nextr s1, nextr s2) :: m)
+                     (alloc s1 (number_from 1 (map (cval_get e1) l))) (alloc s2 (number_from 1 (map (cval_get e2) l)))).
+    { apply st_rel_alloc; auto. apply number_from_rel.
+      apply cvals_rel. eapply env_rel_mono; [|exact He]. apply incl_tl, incl_refl. }
+    assert (He1 : env_rel ((nextr s1, nextr s2) :: m) (env_set x (VCon (nextr s1)) e1) (env_set x (VCon (nextr s2)) e2)).
+    { apply env_set_rel; [|cbn; now left]. eapply env_rel_mono; [|exact He]. apply incl_tl, incl_refl. }
+    destruct (IHn p' ltac:(lia) _ _ hm _ h1 h2 _ _ log Hst1 Hh He1) as (hm' & m' & A & B & C & D).
+    exists hm', m'. split; [exact A|]. split; [|split; assumption].
+    eapply incl_tran; [|exact B]. apply incl_tl, incl_refl.
   - (* println local.x *)
-    cbn. destruct Hd as (m & Hev & Hhp & Hb & Hbd).
-    pose proof (env_get_rel m x e1 e2 Hev) as Hg.
-    assert (print_of (env_get x e1) = print_of (env_get x e2)) as ->.
-    { destruct (env_get x e1), (env_get x e2); cbn in Hg; try contradiction; cbn; congruence. }
-    apply IHn; auto. { cbn in Hsz. lia. } apply (data_rel_intro m); auto.
+    cbn. rewrite (print_of_rel m _ _ (env_get_rel m x e1 e2 He)). apply IHn; auto. lia.
   - (* println local.x[k] *)
-    cbn. destruct Hd as (m & Hev & Hhp & Hb & Hbd).
-    pose proof (env_get_rel m x e1 e2 Hev) as Hg.
-    destruct (env_get x e1) as [sc1|r1], (env_get x e2) as [sc2|r2]; cbn in Hg; try contradiction.
-    + apply IHn; auto. { cbn in Hsz. lia. } apply (data_rel_intro m); auto.
-    + rewrite (Hhp _ _ Hg). apply IHn; auto. { cbn in Hsz. lia. } apply (data_rel_intro m); auto.
-  - (* thread q *)
-    cbn in Hsz. cbn.
-    destruct Hst as (He & Hi & Hm & Hdi & Hsc & Hl & Hs & Hc & Hb & Hbd).
+    cbn. rewrite (print_of_rel m _ _ (load_elem_rel hm m s1 s2 e1 e2 x k Hst He)). apply IHn; auto. lia.
+  - (* thread q args *)
+    cbn.
+    pose proof Hst as (Hel & Hi & Hhp & Hm & Hdi & Hsc & Hl & Hs & Hc & Hb & Hbd & Hbm & Hbdm).
     set (hm1 := (nexth s1, nexth s2) :: hm).
     assert (Hincl : incl hm hm1) by (apply incl_tl, incl_refl).
     assert (Hb1 : pbij hm1) by (apply pbij_cons; auto; now apply bounded_fresh).
-    set (s1' := mkSt (elems s1) (spawn_in h1 (nexth s1) (insts s1)) (mtime s1) (dirty s1) (scaled s1)
-                     (lastclk s1) (startclk s1) (clock s1) (nexth s1 + 1)).
-    set (s2' := mkSt (elems s2) (spawn_in h2 (nexth s2) (insts s2)) (mtime s2) (dirty s2) (scaled s2)
-                     (lastclk s2) (startclk s2) (clock s2) (nexth s2 + 1)).
-    assert (Hst' : st_rel hm1 s1' s2').
+    set (s1' := mkSt (elems s1) (spawn_in h1 (nexth s1) (insts s1)) (heap s1) (mtime s1) (dirty s1) (scaled s1)
+                     (lastclk s1) (startclk s1) (clock s1) (nexth s1 + 1) (nextr s1)).
+    set (s2' := mkSt (elems s2) (spawn_in h2 (nexth s2) (insts s2)) (heap s2) (mtime s2) (dirty s2) (scaled s2)
+                     (lastclk s2) (startclk s2) (clock s2) (nexth s2 + 1) (nextr s2)).
+    assert (Hst' : st_rel hm1 m s1' s2').
     { srel.
-      - eapply elems_mono; eauto.
+      - eapply elems_mono; [exact Hincl|apply incl_refl|exact Hel].
       - apply (spawn_in_rel hm1 h1 h2 (nexth s1) (nexth s2));
           [exact Hb1 | unfold hm1; right; exact Hh | unfold hm1; left; reflexivity | eapply insts_rel_mono; eauto].
       - apply (bounded_cons hm _ _ Hbd). }
     assert (Hq : (psize q <= n)%nat) by lia.
     assert (Hin1 : In (nexth s1, nexth s2) hm1) by (unfold hm1; now left).
-    destruct (IHn q Hq s1' s2' hm1 (nexth s1) (nexth s2) [] [] 1 [] [] 1 log Hst' Hin1 data_rel_empty)
-      as (hm2 & Hi2 & Hst2 & Hlog2).
-    destruct (run_code q s1' (nexth s1) [] [] 1 log) as [s1'' log1] eqn:E1.
-    destruct (run_code q s2' (nexth s2) [] [] 1 log) as [s2'' log2] eqn:E2.
+    destruct (IHn q Hq s1' s2' hm1 m (nexth s1) (nexth s2) _ _ log Hst' Hin1
+                  (params_from_rel m 101 _ _ (args_rel m e1 e2 args He)))
+      as (hm2 & m2 & Hi2 & Hj2 & Hst2 & Hlog2).
+    destruct (run_code q s1' (nexth s1) _ log) as [s1'' log1] eqn:E1.
+    destruct (run_code q s2' (nexth s2) _ log) as [s2'' log2] eqn:E2.
     cbn in Hst2, Hlog2. subst log2.
     assert (Hp : (psize p' <= n)%nat) by lia.
     assert (Hin2 : In (h1, h2) hm2) by (apply Hi2; unfold hm1; now right).
-    destruct (IHn p' Hp s1'' s2'' hm2 h1 h2 e1 hp1 n1 e2 hp2 n2 log1 Hst2 Hin2 Hd) as (hm3 & Hi3 & Hst3 & Hlog3).
-    exists hm3. split; [|split; auto].
-    eapply incl_tran; [exact Hincl|]. eapply incl_tran; eauto.
+    assert (He2 : env_rel m2 e1 e2) by (eapply env_rel_mono; eauto).
+    destruct (IHn p' Hp s1'' s2'' hm2 m2 h1 h2 e1 e2 log1 Hst2 Hin2 He2) as (hm3 & m3 & Hi3 & Hj3 & Hst3 & Hlog3).
+    exists hm3, m3. split; [|split; [|split; auto]].
+    + eapply incl_tran; [exact Hincl|]. eapply incl_tran; eauto.
+    + eapply incl_tran; eauto.
 Qed.
 
-Lemma run_code_rel p s1 s2 hm h1 h2 e1 hp1 n1 e2 hp2 n2 log :
-  st_rel hm s1 s2 -> In (h1, h2) hm -> data_rel e1 hp1 n1 e2 hp2 n2 ->
-  exists hm', incl hm hm' /\
-    st_rel hm' (fst (run_code p s1 h1 e1 hp1 n1 log)) (fst (run_code p s2 h2 e2 hp2 n2 log)) /\
-    snd (run_code p s1 h1 e1 hp1 n1 log) = snd (run_code p s2 h2 e2 hp2 n2 log).
+Lemma run_code_rel p s1 s2 hm m h1 h2 e1 e2 log :
+  st_rel hm m s1 s2 -> In (h1, h2) hm -> env_rel m e1 e2 ->
+  exists hm' m', incl hm hm' /\ incl m m' /\
+    st_rel hm' m' (fst (run_code p s1 h1 e1 log)) (fst (run_code p s2 h2 e2 log)) /\
+    snd (run_code p s1 h1 e1 log) = snd (run_code p s2 h2 e2 log).
 Proof. apply (run_code_rel_n (psize p)). lia. Qed.
 
-Lemma run_thread_rel hm s1 s2 t1 t2 log :
-  st_rel hm s1 s2 -> thr_rel hm t1 t2 ->
-  exists hm', st_rel hm' (fst (run_thread s1 t1 log)) (fst (run_thread s2 t2 log)) /\
+Lemma run_thread_rel hm m s1 s2 t1 t2 log :
+  st_rel hm m s1 s2 -> thr_rel hm m t1 t2 ->
+  exists hm' m', st_rel hm' m' (fst (run_thread s1 t1 log)) (fst (run_thread s2 t2 log)) /\
               snd (run_thread s1 t1 log) = snd (run_thread s2 t2 log).
 Proof.
   intros Hst (Hh & Hc & Hd). unfold run_thread. rewrite <- Hc.
-  destruct (run_code_rel (tcode t1) s1 s2 hm (th t1) (th t2) _ _ _ _ _ _ log Hst Hh Hd) as (hm' & _ & H1 & H2).
-  exists hm'. split; auto.
+  destruct (run_code_rel (tcode t1) s1 s2 hm m (th t1) (th t2) _ _ log Hst Hh Hd) as (hm' & m' & _ & _ & H1 & H2).
+  exists hm', m'. split; auto.
 Qed.
 
 (* ---------------------------------------------------------------- the timer *)
-Lemma elems_times hm l1 l2 : Forall2 (elem_rel hm) l1 l2 -> map etime l1 = map etime l2.
+Lemma elems_times hm m l1 l2 : Forall2 (elem_rel hm m) l1 l2 -> map etime l1 = map etime l2.
 Proof. intro H. induction H as [|a b l1 l2 [Ht _] _ IH]; cbn; congruence. Qed.
 
 Lemma Forall2_length' {A B} (R : A -> B -> Prop) l1 l2 : Forall2 R l1 l2 -> length l1 = length l2.
@@ -324,73 +437,77 @@ Proof.
   intro H. revert i. induction H; intros [|[|i]]; cbn; auto; try constructor; auto.
 Qed.
 
-Lemma st_rel_set_elems hm s1 s2 l1 l2 :
-  st_rel hm s1 s2 -> Forall2 (elem_rel hm) l1 l2 -> st_rel hm (set_elems s1 l1) (set_elems s2 l2).
+Lemma st_rel_set_elems hm m s1 s2 l1 l2 :
+  st_rel hm m s1 s2 -> Forall2 (elem_rel hm m) l1 l2 -> st_rel hm m (set_elems s1 l1) (set_elems s2 l2).
 Proof.
-  intros (He & Hi & Hm & Hdi & Hsc & Hl & Hs & Hc & Hb & Hbd) H. srel.
+  intros (He & Hi & Hhp & Hm & Hdi & Hsc & Hl & Hs & Hc & Hb & Hbd & Hbm & Hbdm) H. srel.
 Qed.
 
-Lemma get_next_rel hm s1 s2 :
-  st_rel hm s1 s2 ->
+Lemma st_rel_set_dirty hm m s1 s2 d :
+  st_rel hm m s1 s2 -> st_rel hm m (set_dirty s1 d) (set_dirty s2 d).
+Proof.
+  intros (He & Hi & Hhp & Hm & Hdi & Hsc & Hl & Hs & Hc & Hb & Hbd & Hbm & Hbdm). srel.
+Qed.
+
+Lemma get_next_rel hm m s1 s2 :
+  st_rel hm m s1 s2 ->
   match get_next s1, get_next s2 with
-  | Some (e1, s1'), Some (e2, s2') => elem_rel hm e1 e2 /\ st_rel hm s1' s2'
+  | Some (e1, s1'), Some (e2, s2') => elem_rel hm m e1 e2 /\ st_rel hm m s1' s2'
   | None, None => True
   | _, _ => False
   end.
 Proof.
-  intro Hst. pose proof Hst as (He & _ & Hm & _). unfold get_next.
-  rewrite (elems_times hm _ _ He), (Forall2_length' _ _ _ He), Hm.
+  intro Hst. pose proof Hst as (He & _ & _ & Hm & _). unfold get_next.
+  rewrite (elems_times hm m _ _ He), (Forall2_length' _ _ _ He), Hm.
   destruct (scan _ _ _ _) as [i|]; [|exact I].
   pose proof (Forall2_nth _ _ _ (pred i) He) as Hn.
   destruct (nth_error (elems s1) (pred i)) as [a|], (nth_error (elems s2) (pred i)) as [b|]; try contradiction; auto.
   split; auto. apply st_rel_set_elems; auto. now apply Forall2_remove_at.
 Qed.
 
-Lemma exec_loop_rel fuel : forall hm s1 s2 log,
-  st_rel hm s1 s2 ->
+Lemma exec_loop_rel fuel : forall hm m s1 s2 log,
+  st_rel hm m s1 s2 ->
   match exec_loop fuel s1 log, exec_loop fuel s2 log with
-  | Some (s1', l1), Some (s2', l2) => (exists hm', st_rel hm' s1' s2') /\ l1 = l2
+  | Some (s1', l1), Some (s2', l2) => (exists hm' m', st_rel hm' m' s1' s2') /\ l1 = l2
   | None, None => True
   | _, _ => False
   end.
 Proof.
-  induction fuel as [|f IH]; intros hm s1 s2 log Hst.
-  - cbn. pose proof (get_next_rel hm s1 s2 Hst) as Hg.
+  induction fuel as [|f IH]; intros hm m s1 s2 log Hst.
+  - cbn. pose proof (get_next_rel hm m s1 s2 Hst) as Hg.
     destruct (get_next s1) as [[a s1']|], (get_next s2) as [[b s2']|]; try contradiction; auto.
-    split; auto. exists hm.
-    destruct Hst as (He & Hi & Hm & Hdi & Hsc & Hl & Hs & Hc & Hb & Hbd). srel.
-  - cbn. pose proof (get_next_rel hm s1 s2 Hst) as Hg.
+    split; auto. exists hm, m. now apply st_rel_set_dirty.
+  - cbn. pose proof (get_next_rel hm m s1 s2 Hst) as Hg.
     destruct (get_next s1) as [[a s1']|], (get_next s2) as [[b s2']|]; try contradiction.
     + destruct Hg as [[_ Ht] Hst'].
-      destruct (run_thread_rel hm s1' s2' (ethr a) (ethr b) log Hst' Ht) as (hm' & H1 & H2).
+      destruct (run_thread_rel hm m s1' s2' (ethr a) (ethr b) log Hst' Ht) as (hm' & m' & H1 & H2).
       destruct (run_thread s1' (ethr a) log) as [x1 y1], (run_thread s2' (ethr b) log) as [x2 y2].
-      cbn in H1, H2. subst y2. now apply (IH hm').
-    + split; auto. exists hm.
-      destruct Hst as (He & Hi & Hm & Hdi & Hsc & Hl & Hs & Hc & Hb & Hbd). srel.
+      cbn in H1, H2. subst y2. now apply (IH hm' m').
+    + split; auto. exists hm, m. now apply st_rel_set_dirty.
 Qed.
 
-Lemma weight_rel hm s1 s2 : st_rel hm s1 s2 -> weight s1 = weight s2.
+Lemma weight_rel hm m s1 s2 : st_rel hm m s1 s2 -> weight s1 = weight s2.
 Proof.
   intros (He & _). unfold weight.
   induction He as [|a b l1 l2 [_ (_ & Hc & _)] _ IH]; cbn; [reflexivity|]. now rewrite Hc, IH.
 Qed.
 
-Lemma execute_running_rel hm s1 s2 log :
-  st_rel hm s1 s2 ->
+Lemma execute_running_rel hm m s1 s2 log :
+  st_rel hm m s1 s2 ->
   match execute_running (weight s1) s1 log, execute_running (weight s2) s2 log with
-  | Some (s1', l1), Some (s2', l2) => (exists hm', st_rel hm' s1' s2') /\ l1 = l2
+  | Some (s1', l1), Some (s2', l2) => (exists hm' m', st_rel hm' m' s1' s2') /\ l1 = l2
   | None, None => True
   | _, _ => False
   end.
 Proof.
-  intro Hst. unfold execute_running. rewrite <- (weight_rel hm s1 s2 Hst).
-  pose proof Hst as (_ & _ & _ & Hdi & _). rewrite <- Hdi.
+  intro Hst. unfold execute_running. rewrite <- (weight_rel hm m s1 s2 Hst).
+  pose proof Hst as (_ & _ & _ & _ & Hdi & _). rewrite <- Hdi.
   destruct (dirty s1).
-  - now apply (exec_loop_rel _ hm).
+  - now apply (exec_loop_rel _ hm m).
   - split; eauto.
 Qed.
 
-Lemma observe_rel hm s1 s2 log : st_rel hm s1 s2 -> observe s1 log = observe s2 log.
+Lemma observe_rel hm m s1 s2 log : st_rel hm m s1 s2 -> observe s1 log = observe s2 log.
 Proof.
   intros (He & (i & Hp & Hf) & _). unfold observe. f_equal.
   - destruct Hf.
@@ -407,51 +524,52 @@ Theorem step_iso s1 s2 o :
   | _, _ => False
   end.
 Proof.
-  intros [hm Hst]. destruct o as [p|dt|].
+  intros (hm & m & Hst). destruct o as [p|dt|].
   - (* host start *)
     cbn [step].
-    pose proof Hst as (He & Hi & Hm & Hdi & Hsc & Hl & Hs & Hc & Hb & Hbd).
+    pose proof Hst as (He & Hi & Hhp & Hm & Hdi & Hsc & Hl & Hs & Hc & Hb & Hbd & Hbm & Hbdm).
     set (hm1 := (nexth s1, nexth s2) :: hm).
     assert (Hincl : incl hm hm1) by (apply incl_tl, incl_refl).
-    set (s1' := mkSt (elems s1) ([nexth s1] :: insts s1) (mtime s1) (dirty s1) (scaled s1)
-                     (lastclk s1) (startclk s1) (clock s1) (nexth s1 + 1)).
-    set (s2' := mkSt (elems s2) ([nexth s2] :: insts s2) (mtime s2) (dirty s2) (scaled s2)
-                     (lastclk s2) (startclk s2) (clock s2) (nexth s2 + 1)).
-    assert (Hst' : st_rel hm1 s1' s2').
+    set (s1' := mkSt (elems s1) ([nexth s1] :: insts s1) (heap s1) (mtime s1) (dirty s1) (scaled s1)
+                     (lastclk s1) (startclk s1) (clock s1) (nexth s1 + 1) (nextr s1)).
+    set (s2' := mkSt (elems s2) ([nexth s2] :: insts s2) (heap s2) (mtime s2) (dirty s2) (scaled s2)
+                     (lastclk s2) (startclk s2) (clock s2) (nexth s2 + 1) (nextr s2)).
+    assert (Hst' : st_rel hm1 m s1' s2').
     { srel.
-      - eapply elems_mono; eauto.
+      - eapply elems_mono; [exact Hincl|apply incl_refl|exact He].
       - destruct Hi as (i & Hp & Hf). exists ([nexth s1] :: i). split; [now constructor|].
         constructor; [constructor; [unfold hm1; now left|constructor] | eapply chains_mono; eauto].
       - apply pbij_cons; auto. now apply bounded_fresh.
       - apply (bounded_cons hm _ _ Hbd). }
     assert (Hin1 : In (nexth s1, nexth s2) hm1) by (unfold hm1; now left).
-    destruct (run_code_rel p s1' s2' hm1 (nexth s1) (nexth s2) [] [] 1 [] [] 1 [] Hst' Hin1 data_rel_empty) as (hm2 & _ & H1 & H2).
-    destruct (run_code p s1' (nexth s1) [] [] 1 []) as [x1 l1].
-    destruct (run_code p s2' (nexth s2) [] [] 1 []) as [x2 l2].
+    destruct (run_code_rel p s1' s2' hm1 m (nexth s1) (nexth s2) [] [] [] Hst' Hin1 (Forall2_nil _))
+      as (hm2 & m2 & _ & _ & H1 & H2).
+    destruct (run_code p s1' (nexth s1) [] []) as [x1 l1].
+    destruct (run_code p s2' (nexth s2) [] []) as [x2 l2].
     cbn in H1, H2. subst l2.
-    pose proof (execute_running_rel hm2 x1 x2 l1 H1) as Hx.
+    pose proof (execute_running_rel hm2 m2 x1 x2 l1 H1) as Hx.
     destruct (execute_running (weight x1) x1 l1) as [[y1 k1]|], (execute_running (weight x2) x2 l1) as [[y2 k2]|];
       try contradiction; auto.
-    destruct Hx as [[hm3 H3] ->]. split; [now exists hm3|]. now apply (observe_rel hm3).
+    destruct Hx as [(hm3 & m3 & H3) ->]. split; [now exists hm3, m3|]. now apply (observe_rel hm3 m3).
   - (* the clock moves *)
-    cbn. destruct Hst as (He & Hi & Hm & Hdi & Hsc & Hl & Hs & Hc & Hb & Hbd).
-    assert (H' : st_rel hm
-               (mkSt (elems s1) (insts s1) (mtime s1) (dirty s1) (scaled s1) (lastclk s1) (startclk s1) (clock s1 + dt) (nexth s1))
-               (mkSt (elems s2) (insts s2) (mtime s2) (dirty s2) (scaled s2) (lastclk s2) (startclk s2) (clock s2 + dt) (nexth s2))).
+    cbn. destruct Hst as (He & Hi & Hhp & Hm & Hdi & Hsc & Hl & Hs & Hc & Hb & Hbd & Hbm & Hbdm).
+    assert (H' : st_rel hm m
+               (mkSt (elems s1) (insts s1) (heap s1) (mtime s1) (dirty s1) (scaled s1) (lastclk s1) (startclk s1) (clock s1 + dt) (nexth s1) (nextr s1))
+               (mkSt (elems s2) (insts s2) (heap s2) (mtime s2) (dirty s2) (scaled s2) (lastclk s2) (startclk s2) (clock s2 + dt) (nexth s2) (nextr s2))).
     { srel. now rewrite Hc. }
-    split; [now exists hm|]. now apply (observe_rel hm).
+    split; [now exists hm, m|]. now apply (observe_rel hm m).
   - (* a frame *)
-    cbn [step]. pose proof Hst as (He & Hi & Hm & Hdi & Hsc & Hl & Hs & Hc & Hb & Hbd).
-    set (x1 := mkSt (elems s1) (insts s1) (clock s1 - startclk s1) true (scaled s1 + (clock s1 - lastclk s1))
-                    (clock s1) (startclk s1) (clock s1) (nexth s1)).
-    set (x2 := mkSt (elems s2) (insts s2) (clock s2 - startclk s2) true (scaled s2 + (clock s2 - lastclk s2))
-                    (clock s2) (startclk s2) (clock s2) (nexth s2)).
-    assert (H' : st_rel hm x1 x2).
+    cbn [step]. pose proof Hst as (He & Hi & Hhp & Hm & Hdi & Hsc & Hl & Hs & Hc & Hb & Hbd & Hbm & Hbdm).
+    set (x1 := mkSt (elems s1) (insts s1) (heap s1) (clock s1 - startclk s1) true (scaled s1 + (clock s1 - lastclk s1))
+                    (clock s1) (startclk s1) (clock s1) (nexth s1) (nextr s1)).
+    set (x2 := mkSt (elems s2) (insts s2) (heap s2) (clock s2 - startclk s2) true (scaled s2 + (clock s2 - lastclk s2))
+                    (clock s2) (startclk s2) (clock s2) (nexth s2) (nextr s2)).
+    assert (H' : st_rel hm m x1 x2).
     { srel; congruence. }
-    pose proof (execute_running_rel hm x1 x2 [] H') as Hx.
+    pose proof (execute_running_rel hm m x1 x2 [] H') as Hx.
     destruct (execute_running (weight x1) x1 []) as [[y1 k1]|], (execute_running (weight x2) x2 []) as [[y2 k2]|];
       try contradiction; auto.
-    destruct Hx as [[hm3 H3] ->]. split; [now exists hm3|]. now apply (observe_rel hm3).
+    destruct Hx as [(hm3 & m3 & H3) ->]. split; [now exists hm3, m3|]. now apply (observe_rel hm3 m3).
 Qed.
 
 Theorem iso_behaviour s1 s2 : iso s1 s2 -> forall ops, run_from s1 ops = run_from s2 ops.
@@ -476,4 +594,3 @@ Proof.
   destruct (step s1 o) as [[s1' o1]|], (step s2 o) as [[s2' o2]|]; try contradiction; auto.
   destruct Hs as [Hi _]. now apply IH.
 Qed.
-
